@@ -40,7 +40,7 @@ type mcase struct {
 // lockedAt / subsAt: what the history points provide.
 func lockedAt(pt string) int {
 	switch strings.TrimSuffix(strings.TrimSuffix(pt, "-v0"), "-v1") {
-	case "sub", "await-subfund2", "await-subsettle", "hub-fund2":
+	case "sub", "await-subfund2", "await-subsettle", "await-subsettle-paid", "hub-fund2":
 		return 1
 	case "sub2", "await-subsettle2", "hub-settle2":
 		return 2
@@ -63,6 +63,8 @@ func (c *mcase) applies(pt string) bool {
 		return strings.HasPrefix(pt, "hub-fund") && lockedAt(pt) >= c.NeedsLocked
 	case "hubsettle":
 		return strings.HasPrefix(pt, "hub-settle") && lockedAt(pt)-1 >= c.NeedsLocked
+	case "hubtwo":
+		return pt == "hub-two"
 	}
 	if strings.HasPrefix(pt, "hub-") {
 		return false
@@ -699,6 +701,26 @@ func autoCases() (out []mcase) {
 			return sc.finish(u)
 		}})
 	}
+	// the settlement as the victim expected it when the sub-channel was finalised, although the parent
+	// has moved on since (M paid the victim 2): the payment is rolled back
+	out = append(out, mcase{Name: "settle/stale-parent", Cat: "settle", Sender: "M", Mut: true, OnlyAt: "await-subsettle-paid", Build: func(sc *mScene) wire.Msg {
+		u := sc.settleBase()
+		if u == nil || sc.parentAtFinal == nil {
+			return nil
+		}
+		st := sc.parentAtFinal.Clone()
+		st.Version = u.St.Version
+		rest, _, ok := mWithout(st.Locked, sc.subFinal.ID)
+		if !ok {
+			return nil
+		}
+		st.Locked = rest
+		for p := range st.Balances[0] {
+			st.Balances[0][p].Add(st.Balances[0][p], sc.subFinal.Balances[0][p])
+		}
+		u.St = st
+		return sc.finish(u)
+	}})
 	out = append(out, mcase{Name: "settle/valid", Cat: "settle", Sender: "M", Build: func(sc *mScene) wire.Msg {
 		if u := sc.settleBase(); u != nil {
 			return sc.finish(u)
@@ -1106,6 +1128,58 @@ func hubCases() (out []mcase) {
 	return out
 }
 
+// ---------------------------------------------------------------- the victim as hub with two virtual channels locked in its channel with M
+
+// hubTwoSettle: M proposes to settle virtual channel k (0: the first locked sub-allocation, 1: the
+// last) with its fully signed initial state as "final" state; well-formed for the hub's validator
+// (it does not look at finality), never matched by a proposal of B.
+func (sc *mScene) hubTwoSettle(k int) wire.Msg {
+	if len(sc.vfunds) != 2 || sc.led == nil {
+		return nil
+	}
+	vf := sc.vfunds[k]
+	st := sc.signed(sc.led)
+	st.Version++
+	rest, _, ok := mWithout(st.Locked, vf.Initial.State.ID)
+	if !ok {
+		return nil
+	}
+	st.Locked = rest
+	// index map [0,1]: Alice is M (index 0), Bob is represented by the hub (index 1)
+	for p := range st.Balances[0] {
+		st.Balances[0][p].Add(st.Balances[0][p], vf.Initial.State.Balances[0][p])
+	}
+	return &client.VirtualChannelSettlementProposalMsg{ChannelUpdateMsg: *sc.finish(&updSpec{St: st, Actor: 0}),
+		Final: channel.SignedState{Params: vf.Initial.Params.Clone(), State: vf.Initial.State.Clone(), Sigs: cloneSigs(vf.Initial.Sigs)}}
+}
+
+// hubTwoDup: an ordinary payment of 1 by M in which the locked sub-allocations are twice the k-th
+// one of the last mutually signed state (the other one is gone, the channel's total changes).
+func (sc *mScene) hubTwoDup(k int) wire.Msg {
+	if sc.led == nil {
+		return nil
+	}
+	u := sc.baseUpdate()
+	if len(u.St.Locked) != 2 {
+		return nil
+	}
+	c := u.St.Clone()
+	u.St.Locked = []channel.SubAlloc{c.Locked[k], u.St.Locked[k]}
+	return sc.finish(u)
+}
+
+func hubTwoCases() (out []mcase) {
+	add := func(name string, mut bool, b func(sc *mScene) wire.Msg) {
+		out = append(out, mcase{Name: "hubtwo/" + name, Cat: "hubtwo", Sender: "M", Mut: mut, Build: b})
+	}
+	add("update-base", false, func(sc *mScene) wire.Msg { return sc.finish(sc.baseUpdate()) })
+	add("settle-first-unmatched", true, func(sc *mScene) wire.Msg { return sc.hubTwoSettle(0) })
+	add("settle-last-unmatched", true, func(sc *mScene) wire.Msg { return sc.hubTwoSettle(1) })
+	add("update-locked-last-twice", true, func(sc *mScene) wire.Msg { return sc.hubTwoDup(1) })
+	add("update-locked-first-twice", true, func(sc *mScene) wire.Msg { return sc.hubTwoDup(0) })
+	return out
+}
+
 // ---------------------------------------------------------------- sync messages, unsolicited responses, control messages
 
 func (sc *mScene) curTX() channel.Transaction {
@@ -1204,6 +1278,7 @@ func allCases() []mcase {
 	out = append(out, vfundCases()...)
 	out = append(out, vsettleCases()...)
 	out = append(out, hubCases()...)
+	out = append(out, hubTwoCases()...)
 	out = append(out, otherCases()...)
 	return out
 }
